@@ -502,6 +502,79 @@ def guard_body(c):
     return fail(kind, f"{name} ({mode}): derivative {got!r} but NumPy gives {dv!r} - neither raised nor correct", f"C15|guard|{name}|{mode}", sample=sample)
 
 
+# ---- integer arrays as the differentiated argument: raise, or return the derivative untruncated -----------------------------------------
+def int_families():
+    import autograd.numpy as np
+
+    w = onp.array([0.5, 0.25, 0.125])
+    W = onp.array([[0.5, -1.0, 2.0], [1.5, 0.25, -0.75]])
+    return {
+        "dot_vec": lambda x: np.dot(w, x), "dot_vec_r": lambda x: np.dot(x, w), "matmul": lambda x: np.sum(W @ x),
+        "matvec_sin": lambda x: np.sum(np.sin(np.dot(W, x))), "tensordot": lambda x: np.sum(np.tensordot(W, x, 1) * w[:2]),
+        "einsum": lambda x: np.einsum("i,i", w, x), "inner": lambda x: np.inner(w, x),
+        "getitem_list": lambda x: np.sum(np.sin(x[[0, 1]])), "getitem_slice": lambda x: np.sum(np.sin(x[:2])),
+        "getitem_int": lambda x: np.sin(x[0] * 1.0), "getitem_mask": lambda x: np.sum(np.sin(x[onp.array([True, False, True])])),
+        "getitem_reverse": lambda x: np.sum(x[::-1] * w), "sum_sin": lambda x: np.sum(np.sin(x)), "mul_const": lambda x: np.sum(x * w),
+        "divide": lambda x: np.sum(x / 2), "true_div": lambda x: np.sum(w / x), "power": lambda x: np.sum(x ** 2) * 0.5,
+        "power_f": lambda x: np.sum(x ** 1.5), "add_float": lambda x: np.sum(np.sin(x + 0.5)),
+        "concatenate": lambda x: np.sum(np.concatenate([x, w]) ** 2), "stack": lambda x: np.sum(np.stack([x, x]) * 0.5),
+        "where": lambda x: np.sum(np.where(w > 0.2, x, 0.5) * w), "reshape": lambda x: np.sum(np.reshape(x, (3, 1)) * 0.5),
+        "cumsum": lambda x: np.sum(np.cumsum(x) * w), "sum_scaled": lambda x: np.sum(x) * 0.5, "mean": lambda x: np.mean(x),
+        "max": lambda x: np.max(x) * 0.5, "prod": lambda x: np.prod(x) * 0.5, "sqrt": lambda x: np.sum(np.sqrt(x)),
+        "exp": lambda x: np.sum(np.exp(x * 0.1)), "abs": lambda x: np.sum(np.abs(x) * w), "maximum": lambda x: np.sum(np.maximum(x, 1.5)),
+        "clip": lambda x: np.sum(np.clip(x, 1.5, 2.5) * w), "tile": lambda x: np.sum(np.tile(x, 2) * 0.5),
+        "repeat": lambda x: np.sum(np.repeat(x, 2) * 0.25), "roll": lambda x: np.sum(np.roll(x, 1) * w),
+        "pad": lambda x: np.sum(np.pad(x, 1, "constant") * 0.5), "kron": lambda x: np.sum(np.kron(x, w)), "sort": lambda x: np.sum(np.sort(x) * w),
+        "fft": lambda x: np.sum(np.real(np.fft.fft(x)) * w), "norm": lambda x: np.linalg.norm(x), "astype": lambda x: np.sum(np.sin(x.astype(float))),
+        "array": lambda x: np.sum(np.array([x[0], x[1]]) * 0.5), "transpose": lambda x: np.sum(np.transpose(np.reshape(x, (1, 3))) * 0.5),
+        "linspace": lambda x: np.sum(np.linspace(x[0] * 1.0, 2.0, 3)),
+    }
+
+
+_INTF = {}
+
+
+def int_input_body(c):
+    """An integer ndarray is not a differentiable input type: differentiating with respect to it must raise, or - where autograd computes in
+    floating point anyway - return the derivative it returns for the same values as floats.  A derivative rounded to integers is neither."""
+    import autograd
+
+    if not _INTF:
+        _INTF.update(int_families())
+    names = sorted(_INTF)
+    fam = names[c.int(0, len(names) - 1)]
+    f = _INTF[fam]
+    vals = c.sample([1, 2, 3, 4, 5], 3)
+    dt = c.choice(["int64", "int32"])  # (smaller integer types make NumPy itself compute in float16 / float32)
+    mode = c.choice(["rev", "rev", "fwd"])
+    xi = onp.array(vals, dtype=dt)
+    xf = xi.astype(float)
+    sample = {"family": fam, "values": vals, "dtype": dt, "mode": mode}
+    c.features.update(family=fam, mode=mode, dtype=dt)
+    v = onp.array([1.0, -0.5, 0.25])
+    try:
+        with warnings.catch_warnings():
+            warnings.simplefilter("ignore")
+            want = autograd.grad(f)(xf) if mode == "rev" else autograd.make_jvp(f)(xf)(v)[1]
+    except Exception as e:
+        return Outcome("numpy_rejects", detail=f"float input: {type(e).__name__}", sample=sample)
+    try:
+        with warnings.catch_warnings():
+            warnings.simplefilter("ignore")
+            got = autograd.grad(f)(xi) if mode == "rev" else autograd.make_jvp(f)(xi)(v)[1]
+    except Exception as e:
+        return ok(nontrivial=True, key=json.dumps([fam, dt, mode, "raises"]), labels=["int_input", "raises", "mode=" + mode], sample=sample)
+    try:
+        ga = onp.asarray(got, dtype=float)
+    except Exception:
+        return fail("wrong_kind", f"{fam}: derivative w.r.t. an integer array is {type(got).__name__}", f"C15|int_input|{fam}|{mode}", sample=sample)
+    wa = onp.asarray(want, dtype=float)
+    if ga.shape != wa.shape or not onp.allclose(ga, wa, rtol=1e-12, atol=1e-12):
+        return fail("truncated_derivative", f"{fam} ({mode}): derivative w.r.t. the {dt} array {vals} is {onp.asarray(got).tolist()} (dtype {onp.asarray(got).dtype}) "
+                    f"but w.r.t. the same values as floats it is {wa.tolist()} - neither raised nor correct", f"C15|int_input|{fam}|{mode}", sample=sample)
+    return ok(nontrivial=True, key=json.dumps([fam, dt, mode, "float_result"]), labels=["int_input", "float_result", "mode=" + mode], sample=sample)
+
+
 def finalize(agg):
     C = cat()
     A = applicable_list()
@@ -515,6 +588,7 @@ PROP = Prop("C15", [
     Test("sweep", sweep_body, quick=12000, thorough=150000, shard_size=750),
     Test("contracts", contract_body, quick=150, thorough=600, shard_size=50),
     Test("guards", guard_body, quick=800, thorough=8000, shard_size=100),
+    Test("int_input", int_input_body, quick=1500, thorough=10000, shard_size=150),
 ], RULE, assumptions=[
     "a callable is accused only for argument templates NumPy accepts from the typed pools; callables with no applicable template are listed, not vouched for",
     "Ridders derivative of the harness-scalarised raw-NumPy output is the reference; numpy.random reseeded before every evaluation",
